@@ -62,7 +62,13 @@ func runC15Feed(r *core.Run) (*core.Violation, func() *core.Violation) {
 		blk := !failed && r.Bool(20, "feed.block-result")
 		var evs []abci.Event
 		for k := 0; k < n; k++ {
-			seq++
+			// the same object may make the same transition twice in one result (a multi-message
+			// transaction that pauses, starts and pauses a group): an identical event, published again
+			if !(k > 0 && r.Bool(15, "feed.repeat-event")) {
+				seq++
+			} else {
+				r.Count("probe:l2-feed-identical-event-repeated")
+			}
 			ev := mtypes.NewEventOrderCreated(mtypes.OrderID{Owner: owner, DSeq: seq, GSeq: 1, OSeq: 1})
 			evs = append(evs, abci.Event(ev.ToSDKEvent()))
 			switch {
